@@ -8,6 +8,9 @@ COMMON_ASSUME = [
 ]
 
 PROPS = {
+    "C06": {"engines": ["asmvc"], "level": "proof",
+            "not_covered": "stage 2 is kernel-independent Go code (same input stream gives the same tape): argued, not a separate obligation; the Go selection between the two families passes identical arguments (inspected in findStructuralIndices contract when listed)",
+            "assumptions": []},
     "C02": {"engines": ["govc"], "level": "proof",
             "not_covered": "producer side (stage 2 emitting the tape) and Interface()/Map() interface values; composition of per-step contracts into 'the whole document' is a prose induction (DESIGN 5/C02)",
             "assumptions": COMMON_ASSUME},
